@@ -396,7 +396,7 @@ def oracle(case, res, meas):
     err_ppm = abs(res["drift"] - tr["drift_ppm"])
     meas["max_drift_err_ppm"] = max(meas.get("max_drift_err_ppm", 0.0), err_ppm)
     meas["max_drift_err_over_bound"] = max(meas.get("max_drift_err_over_bound", 0.0), err_ppm / bound_ppm)
-    if err_ppm > bound_ppm:
+    if not err_ppm <= bound_ppm:
         bad.append(("reported drift %.6f ppm differs from the true drift %.6f ppm by more than the jitter allows (%.4g ppm)"
                     % (res["drift"], tr["drift_ppm"], bound_ppm), {"kind": "drift"}))
     # held-out events: those removed from either side; error against the jitter-free true map
@@ -430,7 +430,7 @@ def oracle(case, res, meas):
         if not inside and not case["linear"]:
             meas["n_interp_extrapolated_points"] = meas.get("n_interp_extrapolated_points", 0) + 1
             meas["max_interp_extrapolation_err_over_bound"] = max(meas.get("max_interp_extrapolation_err_over_bound", 0.0), err / tol)
-        if err > tol:
+        if not err <= tol:       # also catches NaN
             bad.append(("fitted map is off by %.3g s (allowed %.3g s) at %s t=%.6f"
                         % (err, tol, "the held-out event" if i < nh else "the point", x),
                         {"kind": "heldout" if i < nh else "map_error"}))
@@ -470,11 +470,11 @@ def compare(case, res, mod):
     same_pairs = res["ib"] == mod["ib"]
     if same_pairs:
         s_mod, s_imp = mod["slope"] / SLOPE_SCALE, res["drift"] * 1e-6
-        if abs(mod["slope"]) < 2 ** 61 and abs(s_mod - s_imp) > 1e-12 + 1e-9 * abs(s_mod):
+        if abs(mod["slope"]) < 2 ** 61 and not abs(s_mod - s_imp) <= 1e-12 + 1e-9 * abs(s_mod):
             dis.append("slope differs: model %.15g, implementation %.15g" % (s_mod, s_imp))
         for i in range(nq):
             f_mod = mod["fq"][i] / FCN_SCALE
-            if abs(mod["fq"][i]) < 2 ** 61 and abs(f_mod - res["fq"][i]) > 1e-9 * (1 + abs(f_mod)) + 2e-12:
+            if abs(mod["fq"][i]) < 2 ** 61 and not abs(f_mod - res["fq"][i]) <= 1e-9 * (1 + abs(f_mod)) + 2e-12:
                 dis.append("fitted map differs at query %d (x=%r): model %.12f, implementation %.12f"
                            % (i, case["queries"][i], f_mod, res["fq"][i]))
                 break
@@ -493,7 +493,7 @@ def run(ctx):
     n_nat = 1500 if thorough else 140
     n_bnd = 12000 if thorough else 1500
     n_int = 150 if thorough else 25
-    n_long = 60 if thorough else 8
+    n_long = 40 if thorough else 4
     n_ends = 150 if thorough else 20
     cases = [gen_natural(rng) for _ in range(n_nat)] + [gen_boundary(rng) for _ in range(n_bnd)] + \
             [gen_integer_span(rng) for _ in range(n_int)] + \
@@ -553,6 +553,7 @@ def run(ctx):
         ctx.disagree("the first pass left so many events unassigned on %d trains that the model comparison was skipped; "
                      "the unchanged code never does on these generators" % dist["model_skipped_huge_second_pass"],
                      {"kind": "skipped"}, {"kind": "skipped"})
+    ctx.measurements.setdefault('phase_s', {})['T_impl'] = round(ctx.elapsed(), 1)
     ext = common.Extracted(PROP)
     # stage B: the whole function incl. the coarse offset (histogram length n observed), for every case whose offset
     # was not forced.  Conclusive when the model's delta_t equals the implementation's; then everything downstream is
@@ -561,6 +562,7 @@ def run(ctx):
     freeb = [(ci, res) for ci, res in pending if cases[ci].get("forced_rel") is None and "n" in res]
     fin = [enc_input_full(cases[ci], res["n"]) for ci, res in freeb]
     fout = ext.run_many(fin, nproc=min(6, max(1, len(fin) // 30))) if fin else []
+    ctx.measurements.setdefault('phase_s', {})['T_stageB_model'] = round(ctx.elapsed(), 1)
     conclusive = {}
     for (ci, res), fi, fo in zip(freeb, fin, fout):
         case = cases[ci]
@@ -589,7 +591,7 @@ def run(ctx):
             ctx.disagree("correlation peak at index %d in the model, %d in the implementation" % (co["argmax"], cr["argmax_rounded"]),
                          slim(case), {"kind": case["kind"]})
             continue
-        if abs(co["delta"] - res["delta"]) > 1e-9:
+        if not abs(co["delta"] - res["delta"]) <= 1e-9:
             ctx.disagree("coarse offset delta_t: model %.12f, implementation %.12f" % (co["delta"], res["delta"]),
                          slim(case), {"kind": case["kind"]})
             continue
@@ -601,6 +603,7 @@ def run(ctx):
         inputs.append(enc_input(cases[ci], res["delta"]))
         keep.append(ci)
         results.append(res)
+    ctx.measurements.setdefault('phase_s', {})['T_before_stageA'] = round(ctx.elapsed(), 1)
     outs = ext.run_many(inputs, nproc=min(6, max(1, len(inputs) // 50)))
     mods = [parse_model(outs[k], len(cases[ci]["tsa"]), len(cases[ci]["queries"])) for k, ci in enumerate(keep)]
     for ci, res in pending:
@@ -611,6 +614,7 @@ def run(ctx):
             keep.append(ci)
             results.append(res)
             mods.append(mod)
+    ctx.measurements.setdefault('phase_s', {})['T_stageA_done'] = round(ctx.elapsed(), 1)
     # parabolic_max (sub-bin peak interpolation) against its model, 1-D integer-valued arrays
     n_par = 20000 if thorough else 3000
     par_in, par_seen = [], set()
@@ -633,7 +637,7 @@ def run(ctx):
         dist["parabolic_max_interior_peak"] += interior
         if interior:
             nontrivial.add(json.dumps(["parabolic", xs]))
-        if len(mo) != 2 or abs(mo[0] / FCN_SCALE - ip) > 1e-9 or abs(mo[1] / FCN_SCALE - mx) > 1e-9 * (1 + abs(mx)):
+        if len(mo) != 2 or not abs(mo[0] / FCN_SCALE - ip) <= 1e-9 or not abs(mo[1] / FCN_SCALE - mx) <= 1e-9 * (1 + abs(mx)):
             ctx.disagree("parabolic_max differs: model (%s), implementation (%r, %r)"
                          % ([m / FCN_SCALE for m in mo], ip, mx), {"kind": "parabolic", "x": xs})
         elif interior and abs(ip - imax) > 0.5 + 1e-12:
@@ -658,6 +662,7 @@ def run(ctx):
             if npairs >= 2:
                 nontrivial.add(json.dumps([case["linear"], case["tbin"], res["delta"], case["tsa"], case["tsb"]]))
         sizes.append((len(inputs[k]) + len(outs[k]), k))
+    ctx.measurements.setdefault('phase_s', {})['T_parabolic_done'] = round(ctx.elapsed(), 1)
     # kernel re-evaluation (vm_compute) of the same `run` on a sample: smallest cases + random ones
     sizes.sort()
     nk = 60 if thorough else 30
@@ -670,6 +675,7 @@ def run(ctx):
     for k in badk:
         ctx.disagree("kernel-evaluated model differs from the extracted model",
                      slim(cases[keep[k]]) if k < 10 ** 6 else {"kind": "parabolic", "x": par_in[k - 10 ** 6]})
+    ctx.measurements.setdefault('phase_s', {})['T_kernel_done'] = round(ctx.elapsed(), 1)
     ctx.coverage["model_evaluations_extracted"] = len(inputs)
     ctx.coverage["model_evaluations_kernel"] = len(pick)
     ctx.measurements.update({k: (round(v, 9) if isinstance(v, float) else v) for k, v in meas.items()})
